@@ -14,7 +14,10 @@ func seq(fs ...func(*Ctx)) func(*Ctx) {
 
 // All maps property ids to their rule sets.
 var All = map[string]func(*Ctx){
-	"C01": seq(C01, (*Ctx).c12OTP, (*Ctx).c12Recovery, (*Ctx).hasherPassThrough, (*Ctx).smsInvariant, func(c *Ctx) { c.flushUnmodified("C01.queue") }),
+	"C01": seq(C01, (*Ctx).c12OTP, (*Ctx).c12Recovery, (*Ctx).hasherPassThrough, (*Ctx).smsInvariant, func(c *Ctx) {
+		c.flushUnmodified("C01.queue")
+		c.presenceRule("C01.presence")
+	}),
 	"C02": seq(C02, (*Ctx).c12Recovery, (*Ctx).c12SMS, (*Ctx).c01Pending, func(c *Ctx) {
 		c.beforeHandlersIssueNothing("C02.before-no-issue")
 		c.localizeFallback("C02.status-text")
@@ -24,6 +27,7 @@ var All = map[string]func(*Ctx){
 	"C04": seq(C04, func(c *Ctx) {
 		c.vetoOnlyAfterCheck("C04.veto-after-check")
 		c.lockEnforced("C04.lock-enforced")
+		c.hasherPassThrough()
 	}),
 	"C05": seq(C05, func(c *Ctx) { c.moduleCopied("C05.instance") }),
 	"C06": seq(C06, func(c *Ctx) { c.ctxUserFirst("C06.subject") }),
@@ -43,24 +47,26 @@ var All = map[string]func(*Ctx){
 	"C10": C10,
 	"C11": seq(C11, func(c *Ctx) { c.noStateAfterWrite("C11.before-write") }),
 	"C12": seq(C12, (*Ctx).smsInvariant, func(c *Ctx) { c.localizeFallback("C12.status-text") }),
-	"C13": seq(C13, func(c *Ctx) {
+	"C13": seq(C13, (*Ctx).c12Recovery, func(c *Ctx) {
 		c.localizeFallback("C13.status-text")
 		c.halfAuthUpgradeGated("C13.halfauth-upgrade")
 	}),
 	"C14": seq(C14, func(c *Ctx) {
 		c.flushUnmodified("C14.queue")
 		c.providerErrors("C14.details-err")
+		c.providerUIDVerbatim("C14.details-uid")
 	}),
 	"C15": seq(C15, func(c *Ctx) { c.oauthParamsReset("C15.params-reset") }),
 	"C16": seq(C16, func(c *Ctx) {
 		c.verdictNotAnError("C16.verdict")
 		c.ctxUserFirst("C16.subject")
 		c.vetoesFirst("C16.vetoes-first")
+		c.lockedResponseFixed("C16.locked-response")
 		if uls := c.P.FuncOpt("(*ab/lock.Lock).updateLockedState"); uls != nil {
 			c.lockStateStructure(uls)
 		}
 	}),
-	"C17": C17,
+	"C17": seq(C17, (*Ctx).hasherPassThrough),
 	"C18": C18,
 	"C19": seq(C19, (*Ctx).hasherPassThrough),
 	"C20": seq(C20, func(c *Ctx) {
